@@ -107,6 +107,9 @@ func (l fline) text(p int, r *rand.Rand) string {
 	case "blank":
 		return ""
 	case "comment":
+		if r.Intn(25) == 0 {
+			return "# " + strings.Repeat("a very long comment ", 3500) // one line of 70 000 bytes
+		}
 		return []string{"# static leases", "#" + mac + " 10.0.0.1", "#"}[r.Intn(3)]
 	case "ok":
 		t := spellMac(fileMac(l.m), r) + sep(r) + spellIP(p, fileAddr(p, l.a), r)
@@ -115,6 +118,9 @@ func (l fline) text(p int, r *rand.Rand) string {
 		}
 		if r.Intn(4) == 0 {
 			t = " " + t
+		}
+		if r.Intn(40) == 0 {
+			t += strings.Repeat(" ", 66000) // still two fields, on a line longer than 64 KiB
 		}
 		return t
 	case "wsonly":
